@@ -95,6 +95,38 @@ CHECKS = {
              "location, so this is sound for distinct-element writers; reordering across different words is outside "
              "the model). Step-by-step conformance is tied to the pinned instruction order. Needs hooks (--cfg sux_verif).",
         design_ref="5/C13"),
+    "C16": dict(
+        technique="TLA+ spec ShardEdge.tla (design of fuse/MWHC graphs + scaled transcriptions of edge_1/edge_2/"
+                  "edge_2_big/mwhc::edge and all six ShardEdge implementations + wide-number contract on events): "
+                  "exhaustive TLC on small geometries, TLC-exported set-ups replayed, TLC trace validation",
+        text="TLC proves on every small geometry (<=4 shards, l<=4(5), segment size 2^s, s<=2(3), 4(8)-bit signature "
+             "words) that the transcribed edge computations of all six logics produce, for every signature, three "
+             "pairwise distinct vertices inside the array and inside the shard slice that equal the shifted local "
+             "edge, with sort keys in range; on the real code TLC validates for 198 (2406) exported set-ups and a sweep "
+             "of key counts (every 16th n in 0..2000, 2^k+-1 to 2^39, 10^k+-1 to 10^12, all regime boundaries +-2, "
+             "largest-shard recipes avg/mid/max) x eps x all implementations x ~200 signatures (all-zero, all-ones, "
+             "each word/limb saturated, single bits, random) the contract of the property with wide arithmetic in "
+             "TLA+: distinct, in range, in slice, edge = local_edge(local_sig)+shard*num_vertices, shard = high bits "
+             "(= Sig::high_bits), sort_key < num_sort_keys; also after reload (full/eps/mmap).",
+        note=TRUST + "The floating-point parameter formulas are not modelled (parameters are read from the log and "
+             "only the contract is checked); n <= 10^12; geometry for design membership is parsed from Display.",
+        design_ref="5/C16"),
+    "C19": dict(
+        technique="TLA+ specs Mod2.tla (satisfiability per bit plane, solvability by set-based elimination and by brute "
+                  "force, checked equal) and Mod2Design.tla (transcription of add_ptr, echelon form, lazy elimination "
+                  "with weights/priorities/dense remainder/pivot back-substitution): exhaustive TLC + all small systems "
+                  "exported and solved by the real solvers + TLC trace validation",
+        text="TLC checks for every system of <=3 variables and <=3 equations (4x4 in thorough: 880k states) with 1-bit "
+             "constants, and 2-variable systems over two bit planes, that the transcribed Gauss and lazy designs never "
+             "panic, return Ok exactly when the system is solvable and that their assignment satisfies it; all those "
+             "systems are exported and run through gaussian_elimination and lazy_gaussian_elimination (both "
+             "constructors) and check(), and TLC decides each recorded result (Ok(s) must satisfy every equation in "
+             "every plane, Err only if unsolvable, never a panic); random systems up to 40 variables / 60 equations "
+             "over u8..u128 with dependent, repeated, contradictory (single-plane) rows, unused variables, planted "
+             "solutions, fuse-layout and 3-uniform systems with a surviving 2-core exercise the lazy-to-dense hand-over.",
+        note=TRUST + "Solvability of large random systems is decided in TLA+ by elimination (brute force only <= 10 "
+             "variables). The systems lge_shard actually builds are imitated by the generators, not recorded.",
+        design_ref="5/C19"),
     "C18": dict(
         technique="TLA+ spec SigStore.tla (contract + design transcription of push/bucket counting, size aggregation and "
                   "the equal/aggregate/split iterator branches, online and file-backed with chunked reads): exhaustive "
